@@ -7,7 +7,7 @@
    Objects: ints as atoms, doubles as (num den) or () for NA, strings as lists of character codes. *)
 From Coq Require Import Ascii String.
 From Coq Require Import List ZArith QArith Bool.
-From Gst Require Import lib.Sx C08.Codec C08.Model C08.Model_db C08.Model_vario C08.Model_model.
+From Gst Require Import lib.Sx C08.Codec C08.Model C08.Model_db C08.Model_vario C08.Model_model C08.Model_more.
 Import ListNotations.
 Local Open Scope string_scope.
 Local Open Scope list_scope.
@@ -179,6 +179,36 @@ Definition dec_model (s : sx) : option model :=
       Some {| md_ndim := nd; md_nvar := nv; md_field := f'; md_covs := cs'; md_drifts := dr'; md_means := ms'; md_covar0 := c0' |}
   | _ => None
   end.
+(* AnamEmpirical, MeshETurbo *)
+Definition enc_acont (c : acont) : list sx :=
+  [ofD (ac_azmin c); ofD (ac_azmax c); ofD (ac_aymin c); ofD (ac_aymax c);
+   ofD (ac_pzmin c); ofD (ac_pzmax c); ofD (ac_pymin c); ofD (ac_pymax c); ofD (ac_mean c); ofD (ac_variance c)].
+Definition enc_empirical (o : anam_empirical) : sx :=
+  L (enc_acont (ae_cont o) ++ [ofD (ae_sigma2e o); ofList ofD (ae_z o); ofList ofD (ae_y o); ofB (ae_dilution o); ofB (ae_gaussian o)]).
+Definition dec_empirical (s : sx) : option anam_empirical :=
+  match s with
+  | L [a1; a2; a3; a4; p1; p2; p3; p4; m; v; s2; z; y; dl; ga] =>
+      a1' <-? asD a1 ;; a2' <-? asD a2 ;; a3' <-? asD a3 ;; a4' <-? asD a4 ;;
+      p1' <-? asD p1 ;; p2' <-? asD p2 ;; p3' <-? asD p3 ;; p4' <-? asD p4 ;;
+      m' <-? asD m ;; v' <-? asD v ;; s2' <-? asD s2 ;; z' <-? asListOf asD z ;; y' <-? asListOf asD y ;;
+      dl' <-? asB dl ;; ga' <-? asB ga ;;
+      Some {| ae_cont := {| ac_azmin := a1'; ac_azmax := a2'; ac_aymin := a3'; ac_aymax := a4';
+                            ac_pzmin := p1'; ac_pzmax := p2'; ac_pymin := p3'; ac_pymax := p4'; ac_mean := m'; ac_variance := v' |};
+              ae_sigma2e := s2'; ae_z := z'; ae_y := y'; ae_dilution := dl'; ae_gaussian := ga' |}
+  | _ => None
+  end.
+Definition enc_turbo (o : mesh_turbo) : sx :=
+  L [ofList ofZ (mt_nx o); ofList ofD (mt_dx o); ofList ofD (mt_x0 o); ofList ofD (mt_rotmat o); ofB (mt_polar o); I (mt_mode o);
+     ofList ofZ (mt_mesh_mask o); ofList ofZ (mt_grid_mask o)].
+Definition dec_turbo (s : sx) : option mesh_turbo :=
+  match s with
+  | L [nx; dx; x0; rm; po; I mode; mm; gm] =>
+      nx' <-? asListOf asZ nx ;; dx' <-? asListOf asD dx ;; x0' <-? asListOf asD x0 ;; rm' <-? asListOf asD rm ;;
+      po' <-? asB po ;; mm' <-? asListOf asZ mm ;; gm' <-? asListOf asZ gm ;;
+      Some {| mt_nx := nx'; mt_dx := dx'; mt_x0 := x0'; mt_rotmat := rm'; mt_polar := po'; mt_mode := mode;
+              mt_mesh_mask := mm'; mt_grid_mask := gm' |}
+  | _ => None
+  end.
 (* oracle table ((type hasRange hasParam) ...) *)
 Definition table_lookup (tbl : list (Z * bool * bool)) (sel : Z * bool * bool -> bool) (t : Z) : bool :=
   match find (fun e => fst (fst e) =? t) tbl with Some e => sel e | None => false end.
@@ -204,6 +234,8 @@ Definition classes (id : Z) (aux : sx) : option cls :=
   | 10 => Some {| c_tag := "Db"; c_ser := ser_Db; c_deser := deser_Db; c_enc := enc_db; c_dec := dec_db |}
   | 11 => Some {| c_tag := "DbGrid"; c_ser := ser_DbGrid; c_deser := deser_DbGrid; c_enc := enc_dbgrid; c_dec := dec_dbgrid |}
   | 12 => Some {| c_tag := "Vario"; c_ser := ser_Vario; c_deser := deser_Vario; c_enc := enc_vario; c_dec := dec_vario |}
+  | 22 => Some {| c_tag := "AnamEmpirical"; c_ser := ser_AnamEmpirical; c_deser := deser_AnamEmpirical; c_enc := enc_empirical; c_dec := dec_empirical |}
+  | 25 => Some {| c_tag := "MeshETurbo"; c_ser := ser_MeshETurbo; c_deser := deser_MeshETurbo; c_enc := enc_turbo; c_dec := dec_turbo |}
   | 13 => match dec_table3 aux with
           | Some tbl =>
               let hr := table_lookup tbl (fun e => snd (fst e)) in
